@@ -43,6 +43,7 @@ ReadDone(n) == /\ phase = "reading" /\ n > 0 /\ phase' = "read"
 Parsed(close) == /\ phase = "read" /\ k < Len(reqs)
                  /\ k' = k + 1 /\ phase' = "parsed" /\ log' = <<>> /\ closing' = close
                  /\ close = reqs[k + 1].close                       \* the header of THIS request, not of an earlier one
+                 /\ ~closing
                  /\ UNCHANGED <<apps, reqs, early, status, answered>>
 \* fang / handler events extend the log; it must stay a prefix of an onion trace of this request
 FangEvent(e) == /\ phase = "parsed" /\ log' = Append(log, e)
@@ -56,6 +57,9 @@ Handled(st) == /\ phase = "parsed" /\ phase' = "handled" /\ status' = st
 Sent == /\ phase = "handled" /\ answered' = Append(answered, [k |-> k, status |-> status])
         /\ phase' = IF closing THEN "closed" ELSE "idle"
         /\ UNCHANGED <<k, apps, reqs, early, log, status, closing>>
+\* Request::read refused the bytes: an error response is sent and the loop goes on
+Rejected(st) == /\ phase = "read" /\ st >= 400 /\ phase' = "handled" /\ status' = st /\ k' = k + 1 /\ log' = <<>> /\ closing' = FALSE
+                /\ UNCHANGED <<apps, reqs, early, answered>>
 \* the peer closed / reset: the loop is left
 Close == /\ phase \in {"reading", "read"} /\ phase' = "closed"
          /\ UNCHANGED <<k, apps, reqs, early, log, status, closing, answered>>
@@ -65,7 +69,7 @@ Close == /\ phase \in {"reading", "read"} /\ phase' = "closed"
 InOrder == \A j \in DOMAIN answered : answered[j].k = j
 \* the handler that ran for the current request is one the routing property allows (C01) ...
 HandlerOf(l) == IF \E j \in DOMAIN l : l[j][1] = "handler" THEN l[CHOOSE j \in DOMAIN l : l[j][1] = "handler"][2] ELSE 0
-DispatchInv == phase = "handled" =>
+DispatchInv == (phase = "handled" /\ (status < 400 \/ log # <<>>)) =>
                  LET h == HandlerOf(log)
                      cut == early # 0 /\ \E j \in DOMAIN log : log[j] = <<"enter", early>> IN
                  IF cut THEN h = 0 /\ status = 403
